@@ -4,11 +4,12 @@ which rules report it. usage: seed_matrix.py [--all]  (--all: against every prop
 import json, os, subprocess, sys, glob
 from concurrent.futures import ThreadPoolExecutor
 ALL = "--all" in sys.argv
-props = subprocess.run(["/verif/bin/rcverif","list"],capture_output=True,text=True).stdout.split()
+BIN = os.environ.get("RCVERIF", "/verif/bin/rcverif")
+props = subprocess.run([BIN,"list"],capture_output=True,text=True).stdout.split()
 seeds = sorted(d for d in glob.glob("/verif/seeded/C*-*") if os.path.isdir(d))
 def run(job):
     seed, prop = job
-    out = subprocess.run(["/verif/bin/rcverif","mutant","-property",prop,"-patch",seed+"/patch.diff"],capture_output=True,text=True)
+    out = subprocess.run([BIN,"mutant","-property",prop,"-patch",seed+"/patch.diff"],capture_output=True,text=True)
     try:
         d = json.loads(out.stdout)
     except Exception:
@@ -32,4 +33,4 @@ for s in sorted(res):
     for p, v in sorted(res[s].items()):
         for x in v:
             print(f"    [{p}] {x}")
-json.dump(res, open("/tmp/seed_matrix.json","w"), indent=1)
+json.dump(res, open(os.environ.get("MATRIX_OUT", "/tmp/seed_matrix.json"),"w"), indent=1)
